@@ -7,6 +7,7 @@ import (
 	"encoding/hex"
 	"fmt"
 	"math/rand"
+	"strings"
 
 	"github.com/protolambda/zrnt/eth2/beacon/altair"
 	"github.com/protolambda/zrnt/eth2/beacon/bellatrix"
@@ -492,6 +493,10 @@ func genState(o hreg.Opts, w *bufio.Writer) error {
 					}
 					k := rng.Intn(len(live))
 					label := m.step(live[k])
+					if strings.HasSuffix(label, "!panic") {
+						// a mutation of the state API panicked: a line the oracle cannot agree with (Go answers `panic`)
+						fmt.Fprintf(w, "st %s %s %s panic -\n", label, typ, p.tok)
+					}
 					// after a mutation of one copy every live copy is checked: the mutated one for the new
 					// content, the others for not having been disturbed through shared nodes
 					for j, l := range live {
